@@ -802,6 +802,7 @@ func main() {
 		scSatisfy(),
 		scMerge(),
 		scRoleTree(),
+		scRoleTreeIter(),
 		scResources(),
 		scPorts(),
 	}, extraScenarios()...))
